@@ -215,6 +215,7 @@ CLAIMED = {
         "the rest of the block sits under one test of the flag), C17_continued_statements_height_list (same after `continue` in a "
         "for loop) and C17_returned_statements_height_list (after `return` in a function body); C17_elif_chain_height_short (an if/elif/.../else chain of n tests under "
         "if_style=short_circuit is one flat `or`: height <= 6 for EVERY n) and C17_elif_chain_height_ifexp (under if_expr: exactly the nesting of the source plus one). "
+        "C17_each_guard_adds_a_level (for EVERY statement lowering, context and block: a statement that can take an early exit puts the whole rest of the block at least one level below itself - the mechanism of the known finding K-guard-clause-nesting; computed family: height 2k + 5 for k guards). "
         "The programs of every height theorem are converted by the real converter on every run (tree equality with the model, the stated bound measured on the real tree). Partial: whether CPython accepts an expression of a given depth (C stack, parser limits, the recursion limit hit "
         "by CPython's own ast.unparse) is interpreter behaviour; it is measured on a geometric schedule over 50 program families (statements after an early exit, many guard clauses in one block, operator and conditional-expression chains in 17 statement positions) with the "
         "default recursion limit. Three known findings (ast.unparse recursion; chain_call depth; one nesting level per guard clause of a block).",
